@@ -170,6 +170,9 @@ def C10(tier, seed):
     chk = Check('C10', tier, seed)
     be = [0, 2, 3] + ([4] if tier == 'thorough' else [])
     oracle_units(chk, ['A', 'Ai'], be, 'C10', proj=STD, bfs_depth=6)
+    # completion chain before an event posted by the action that entered the source state (guard case splits first: the unsplit query gives no verdict)
+    oracle_units(chk, ['Aq'], be, 'C10', proj=STD, bfs_depth=6, strats=['nkG', 'pk'])
+    chk.assumptions.append('C10 machine Aq: payload P != -2 (the posted event carries P+1, and -1 is the marker behaviours log for the completion event; with P == -2 the two branches of the oracle trie are indistinguishable)')
     chk.assumptions.append('C10: completion-guard sites of states active in the pre-state are assumed false in the step (the quantifier holds them fixed until re-entry); completion-guard consultations are logged in a separate class that is not compared (back re-tries them after every handled event)')
     return chk
 
